@@ -861,8 +861,8 @@ pub fn plan(property: &'static str, tier: &str) -> Plan {
             let depth = match (thorough, main4) {
                 (false, true) => 4,
                 (false, false) => 3,
-                (true, true) => 6,
-                (true, false) => 5,
+                (true, true) => 5,
+                (true, false) => 4,
             };
             let bound = if raced || (thorough && main4) { 1 } else { 0 };
             if bound >= 1 {
@@ -887,7 +887,7 @@ pub fn plan(property: &'static str, tier: &str) -> Plan {
                 continue;
             }
         }
-        cfgs.push((Cfg { routing: r, discard: Discard::None, workers: 2, depth: if thorough { 7 } else { 5 }, ttl: false, lean: true, burst: false, queue: QueueKind::Default, set_limit: false, flow_only: false, fine_deaths: false, script: None, slow_stops: false }, 0));
+        cfgs.push((Cfg { routing: r, discard: Discard::None, workers: 2, depth: if thorough { 6 } else { 5 }, ttl: false, lean: true, burst: false, queue: QueueKind::Default, set_limit: false, flow_only: false, fine_deaths: false, script: None, slow_stops: false }, 0));
     }
     // bursts: requests that sit in the factory's mailbox together (a resize right behind a resize, a
     // dispatch right behind a drain request, ...), so the factory handles the second before the workers
@@ -917,7 +917,7 @@ pub fn plan(property: &'static str, tier: &str) -> Plan {
     }
     // a leaky-bucket rate limiter in front of the router; the history may let 150 ms pass (refill to the cap)
     for r in [Routing::RlQueuer, Routing::RlKeyPersistent] {
-        cfgs.push((Cfg { routing: r, discard: Discard::None, workers: 2, depth: if thorough { 7 } else { 5 }, ttl: false, lean: true, burst: false, queue: QueueKind::Default, set_limit: false, flow_only: false, fine_deaths: false, script: None, slow_stops: false }, 0));
+        cfgs.push((Cfg { routing: r, discard: Discard::None, workers: 2, depth: if thorough { 6 } else { 5 }, ttl: false, lean: true, burst: false, queue: QueueKind::Default, set_limit: false, flow_only: false, fine_deaths: false, script: None, slow_stops: false }, 0));
     }
     // a worker dies right after it reported completion, at the granularity of the factory's own channel
     // operations (worker-queued routing: the next job of its queue is dispatched while it is going down)
